@@ -22,6 +22,10 @@ namespace Primitiv.Lock
 /-- 2^32, the modulus of `std::uint32_t lock_count_`. -/
 abbrev W : Nat := 4294967296
 
+/-- `++x` / `--x` on a `std::uint32_t` whose value is `< W`. -/
+def inc32 (c : Nat) : Nat := if c + 1 < W then c + 1 else 0
+def dec32 (c : Nat) : Nat := if c = 0 then W - 1 else c - 1
+
 /-- The three public operations of both classes. -/
 inductive Op where
   | lock | tryLock | unlock
@@ -225,12 +229,12 @@ def trans (t : Nat) (sh : Shared) (th : Thread) : Shared × Thread × Event :=
     else (sh, finish th.hold th.rest, ⟨"rd_owner", "false"⟩)
   | .tWr b => ({ sh with owner := some t }, { th with pc := .tInc b }, ⟨"wr_owner", "-"⟩)
   | .tInc b =>
-    ({ sh with count := (sh.count + 1) % W }, finish (th.hold + 1) th.rest, ⟨"inc", if b then "void" else "true"⟩)
+    ({ sh with count := inc32 sh.count }, finish (th.hold + 1) th.rest, ⟨"inc", if b then "void" else "true"⟩)
   | .uRd =>
     if sh.owner = some t then (sh, { th with pc := .uDec }, ⟨"rd_owner", "-"⟩)
     else (sh, finish (th.hold - 1) th.rest, ⟨"rd_owner", "void"⟩)
   | .uDec =>
-    let c := (sh.count + W - 1) % W
+    let c := dec32 sh.count
     if c = 0 then ({ sh with count := c }, { th with pc := .uWr }, ⟨"dec", "-"⟩)
     else ({ sh with count := c }, finish (th.hold - 1) th.rest, ⟨"dec", "void"⟩)
   | .uWr => ({ sh with owner := none }, { th with pc := .uClr }, ⟨"wr_owner", "-"⟩)
